@@ -205,6 +205,7 @@ class Pipeline:
         I = self.I
         add = I.add_model
         pl = self
+        I.axioms_hook = leb_range_axioms
         I.len_hook = lambda I_, st, v: BV(module_len(I_, st, v), 'usize') if isinstance(v, Struct) and v.ty == 'enc:Module' else None
 
         # ---- parser / validator
@@ -565,13 +566,56 @@ class Pipeline:
         return outs
 
 
+LEB_APPS = {}
+
+
 def leblen(t):
-    """length of the unsigned LEB128 encoding of a 64-bit term (reference definition used by the layout contracts)"""
+    """length of the unsigned LEB128 encoding of a 64-bit term.  During interpretation it is an uninterpreted function
+    with the range axiom 1 <= leb(x) <= 10 (keeps path-feasibility queries cheap); obligations that depend on its exact
+    value conjoin `leb_definitions()`."""
+    f = LEB_APPS.get('__f__')
+    if f is None:
+        f = z3.Function('leb128_len', z3.BitVecSort(64), z3.BitVecSort(64))
+        LEB_APPS['__f__'] = f
+    app = f(t)
+    LEB_APPS[app.get_id()] = (app, t)
+    return app
+
+
+def leblen_exact(t):
     w = t.size()
     r = z3.BitVecVal(10 if w == 64 else 5, w)
     for k in range(9 if w == 64 else 4, 0, -1):
         r = z3.If(z3.ULT(t, z3.BitVecVal(1 << (7 * k), w)), z3.BitVecVal(k, w), r)
     return r
+
+
+def _leb_apps_in(terms):
+    f = LEB_APPS.get('__f__')
+    out = {}
+    if f is None:
+        return out
+    seen = set()
+    stack = list(terms)
+    while stack:
+        t = stack.pop()
+        i = t.get_id()
+        if i in seen:
+            continue
+        seen.add(i)
+        if z3.is_app(t):
+            if t.decl().eq(f):
+                out[i] = t
+            stack.extend(t.children())
+    return out
+
+
+def leb_range_axioms(terms):
+    return [z3.And(z3.UGE(app, z3.BitVecVal(1, 64)), z3.ULE(app, z3.BitVecVal(10, 64))) for app in _leb_apps_in(terms).values()]
+
+
+def leb_definitions(terms):
+    return [app == leblen_exact(app.arg(0)) for app in _leb_apps_in(terms).values()]
 
 
 def code_bytes(sec):
@@ -586,22 +630,26 @@ def code_bytes(sec):
 
 
 def module_len(I, st, mod):
-    """byte length of the recorded wasm_encoder::Module: header (8) + per section 1 + LEB(size) + size; the size of a
-    non-code section is an uninterpreted symbol per section position"""
-    tot = z3.BitVecVal(8, 64)
-    for i, e in enumerate(mod.f[0].items):
-        if e[0] != 'section':
-            continue
-        sec = e[1]
-        if isinstance(sec, Struct) and sec.ty == 'enc:CodeSection':
-            n = sum(1 for x in sec.f[0].items if x[0] == 'raw')
-            size = leblen(z3.BitVecVal(n, 64)) + code_bytes(sec)
-        else:
-            size = z3.BitVec('section_size!%d' % i, 64)
-            if ('secsize', i) not in st.meta:
-                st.meta[('secsize', i)] = True
-                st.pc.append(z3.ULT(size, z3.BitVecVal(1 << 32, 64)))
-        tot = tot + 1 + leblen(size) + size
+    """byte length of the recorded wasm_encoder::Module.  Only the code section's layout is exact:
+    len = P + [1 + LEB(S) + S] + Q with S = LEB(count) + code bytes; P (header and all earlier sections) and Q (later
+    sections) are single bounded symbols."""
+    secs = [e[1] for e in mod.f[0].items if e[0] == 'section']
+    ci = [i for i, sec in enumerate(secs) if isinstance(sec, Struct) and sec.ty == 'enc:CodeSection']
+    def symlen(name):
+        v = z3.BitVec(name, 64)
+        if name not in st.meta:
+            st.meta[name] = True
+            st.pc.append(z3.ULT(v, z3.BitVecVal(1 << 32, 64)))
+            st.pc.append(z3.UGE(v, z3.BitVecVal(8, 64)))
+        return v
+    if not ci:
+        return symlen('module_bytes_%d_sections' % len(secs))
+    sec = secs[ci[0]]
+    n = sum(1 for x in sec.f[0].items if x[0] == 'raw')
+    size = leblen(z3.BitVecVal(n, 64)) + code_bytes(sec)
+    tot = symlen('bytes_before_code_section') + 1 + leblen(size) + size
+    if ci[0] != len(secs) - 1:
+        tot = tot + symlen('bytes_after_code_section_%d' % (len(secs) - ci[0] - 1))
     return tot
 
 
